@@ -1,6 +1,6 @@
 (* Tie for C01: totality results proved for other properties, gathered. *)
 From PV Require Import Model.Lexer Model.Filters Model.Exec Spec.SpecWalk.
-From PV Require Export Tie.C16 Tie.C18 Tie.C08.
+From PV Require Export Tie.C16 Tie.C18 Tie.C08 Tie.C01a.
 Open Scope N_scope.
 
 Lemma tie_walk_never_panics :
